@@ -245,6 +245,10 @@ def recvRecvHeaders (s : Streams) (id : Nat) (h : HeadersIn) : Streams × RecvHe
   | (_, .error e) => (s, .state e)
   | (st', .ok isInitial) =>
     let s := s.modStream id fun st => { st with state := st' }
+    -- a promised stream is not counted while it is only reserved: the limit may have been reached since
+    if isInitial && !(s.stream id).isCounted && !s.counts.canIncNumRecvStreams then
+      (s, .state (PErr.libraryReset (s.stream id).id REFUSED_STREAM))
+    else
     let s :=
       if isInitial && !(s.stream id).isCounted then
         let s := if h.sid > s.recv.lastProcessedId then s.modRecv fun r => { r with lastProcessedId := h.sid } else s
